@@ -109,6 +109,8 @@ def step' (st : St) (j : Json) : St × List String :=
     let resp := (w.S.rowsAfter w.C.lastTs).map (·.vp) ++ [parseVP (jObj j "vp")]
     let (c', ctr', r) := clientApply cfg st.d w.C w.t w.ctr w.S.seed w.S.lastTs resp
     let (s, l) := observe { st with w := { w with C := c', ctr := ctr', pending := none } } r.cls; (s, [l])
+  | "restartS" => let (s, l) := apply st .restartServer; (s, [l])
+  | "restartC" => let (s, l) := apply st .restartClient; (s, [l])
   | "dstart" => let (s, l) := apply st .dpollStart; (s, [l])
   | "dfinish" => let (s, l) := apply st (.dpollFinish (jNat j "k") (permOf (jStrs j "order"))); (s, [l])
   | "purge" => let (s, l) := observe st "ok"; (s, [l])
